@@ -24,3 +24,23 @@ func TestLatticeDev(t *testing.T) {
 		t.Errorf("obligations %d, discharged %d", res.Obligations, res.Discharged)
 	}
 }
+
+// TestMulDev is a development aid (VOI_ELIN_DEV=1, VOI_CFG).
+func TestMulDev(t *testing.T) {
+	if os.Getenv("VOI_ELIN_DEV") == "" {
+		t.Skip("development aid; set VOI_ELIN_DEV=1")
+	}
+	os.Setenv("VOI_VERIF", t.TempDir())
+	cfg := os.Getenv("VOI_CFG")
+	if cfg == "" {
+		cfg = "purego"
+	}
+	p, err := load.Load(cfg, load.Opts{SSA: true})
+	if err != nil {
+		t.Fatal(err)
+	}
+	run := report.New("XMUL", "quick", 0)
+	res := CheckMul(run, p, "MUL")
+	t.Logf("functions %d obligations %d discharged %d", res.Functions, res.Obligations, res.Discharged)
+	run.Finish()
+}
